@@ -1238,6 +1238,12 @@ func (c *ControlPlane) dnsControllerOption() *DnsControllerOption {
 			}
 			return nil
 		},
+		CacheRefreshCallback: func(cache *DnsCache, stillCurrent func() bool) (err error) {
+			if err = c.core.BatchRefreshDomainRouting(cache, stillCurrent); err != nil {
+				return fmt.Errorf("BatchRefreshDomainRouting: %w", err)
+			}
+			return nil
+		},
 		CacheDeleteCallback: func(cacheKey string, cache *DnsCache) (err error) {
 			_ = cacheKey
 			if err = c.core.BatchRemoveDomainRouting(cache); err != nil {
